@@ -4,6 +4,8 @@
 package c01
 
 import (
+	"github.com/rs/zerolog"
+	"io"
 	"encoding/json"
 	"fmt"
 	"strings"
@@ -206,6 +208,7 @@ func reference(cs *Case) (allowed bool, trace []string, used int) {
 type fixture struct {
 	apps  *hx.Apps
 	appsV *hx.Apps // verbose error responses enabled
+	appsT *hx.Apps // log level trace
 	sc    *script
 	mf    *hx.MixedFactory
 }
@@ -246,12 +249,16 @@ func newFixture() *fixture {
 	vconf.Serve.Proxy.Respond.Verbose = true
 	f.appsV = hx.NewApps(vconf, nil)
 
+	// everything logged: statements guarded by the log level are executed (into io.Discard)
+	f.appsT = hx.NewAppsWithLogger(&config.Configuration{}, nil, zerolog.New(io.Discard).Level(zerolog.TraceLevel))
+
 	return f
 }
 
 func (f *fixture) close() {
 	f.apps.Close()
 	f.appsV.Close()
+	f.appsT.Close()
 }
 
 func pipeline(cs *Case) []config.MechanismConfig {
@@ -278,7 +285,7 @@ func (f *fixture) load(cs *Case) error {
 	exec := pipeline(cs)
 	onErr := errPipes[cs.ErrPipe]
 
-	for _, apps := range []*hx.Apps{f.apps, f.appsV} {
+	for _, apps := range []*hx.Apps{f.apps, f.appsV, f.appsT} {
 		apps.Conf.Default = nil
 
 		if cs.RuleSource == "default" {
@@ -335,6 +342,10 @@ func (f *fixture) exec(cs *Case, entry string, verbose bool) obs {
 	req := &hx.Req{Method: "GET", Scheme: "http", Host: "svc.local", RawPath: "/x"}
 	apps := f.apps
 
+	if strings.HasSuffix(entry, "@trace") {
+		entry, apps = strings.TrimSuffix(entry, "@trace"), f.appsT
+	}
+
 	if verbose {
 		// verbose error responses and an Accept header no error body format is available for
 		apps = f.appsV
@@ -380,7 +391,7 @@ var entries = []string{"decision", "proxy", "envoy"}
 var entryVariants = []struct {
 	entry   string
 	verbose bool
-}{{"decision", false}, {"proxy", false}, {"envoy", false}, {"decision", true}, {"proxy", true}, {"envoy", true}}
+}{{"decision", false}, {"proxy", false}, {"envoy", false}, {"decision", true}, {"proxy", true}, {"envoy", true}, {"decision@trace", false}}
 
 func structures(quick bool) [][]StepCfg {
 	var authn [][]StepCfg
@@ -498,6 +509,8 @@ func judge(c *engine.Ctx, f *fixture, cs *Case) (sizes []int) {
 		if ev.verbose {
 			entry += "(verbose,accept=image/png)"
 		}
+
+		entry = strings.Replace(entry, "@trace", "(log level trace)", 1)
 
 		nontrivial := len(cs.Answers) > 0 || !wantAllowed
 		if nontrivial {
